@@ -22,7 +22,8 @@ RULE = ("job = seed (+ optional (suite, version, EtM) grid cell) -> handshake, "
         "delivered, connection closed, session not resumable. distinct = "
         "digest(scenario, tamper); non-trivial = the tamper fired on a "
         "protected record and the receiver processed it"
-        ' Family hs_epoch (every cell): forgeries aimed at the first PROTECTED record of the handshake in one direction (foreign application_data-typed record in front, bit flip, truncated copy, reflection) => the receiver aborts the handshake with a fatal integrity/decoding alert.  byz_inner: a key-holding peer emits all-zero / empty inner plaintexts and a protected change_cipher_spec.')
+        ' Family hs_epoch (every cell): forgeries aimed at the first PROTECTED record of the handshake in one direction (foreign application_data-typed record in front, bit flip, truncated copy, reflection) => the receiver aborts the handshake with a fatal integrity/decoding alert.  byz_inner: a key-holding peer emits all-zero / empty inner plaintexts and a protected change_cipher_spec.'
+        ' After a rejected record the application reads once more: only honest, already decrypted bytes may come out.  Families inject_mid (unprotected record in the middle of a key epoch, every cell) and ku_replay (TLS 1.3: first record of the previous key epoch replayed right after a KeyUpdate).')
 LEVEL_TEXT = ("Seeded fault search: one wire fault per run, aimed with a "
               "fault-free dry run of the same seed so it lands inside "
               "protected traffic; every (suite, version, EtM) cell is hit in "
